@@ -724,7 +724,7 @@ N_LATTICE_SHARDS = 12
 
 
 def shards(tier, seed):
-    nro, per_ro = (16, 2) if tier == "quick" else (64, 8)
+    nro, per_ro = (32, 1) if tier == "quick" else (64, 6)
     nmo, per_mo = (4, 6) if tier == "quick" else (16, 40)
     # Hypothesis always starts with the same minimal example: only shard 0 runs it (skip_first elsewhere)
     specs = [{"part": "ro", "n": per_ro, "seed": seed * 1000 + i, "skip_first": i > 0} for i in range(nro)]
